@@ -238,7 +238,21 @@ def bounds(tier):
                 "other_initial_paragraphs": "each route as the first step from the other kinds of initial paragraph and from "
                                             "the initial paragraphs over the length-changing alphabet",
                 "sub_classes": "a 3-field paragraph parsed by %s: every operation and every route as first step; depth-2 "
-                               "tree of operations for %s" % (CLASS_INITS, CLASS_INITS_DEPTH2 if tier == "quick" else CLASS_INITS)}}
+                               "tree of operations for %s" % (CLASS_INITS, CLASS_INITS_DEPTH2 if tier == "quick" else CLASS_INITS)},
+            "deep_narrow_histories": {
+                "what": "beyond 3 keys / depth 3: abstract operations resolved against the state (a NEW name that sorts "
+                        "first / last / in the middle, the name deleted last in its other spelling, delete by position, "
+                        "sort, move, copy, switch to the paragraph left behind (cyclic, up to 4 live paragraphs), a refused "
+                        "delete, re-parse), every history of every length up to the depth, each replayed on fresh objects, "
+                        "complete projection of EVERY live paragraph compared after the last step over every name the "
+                        "history used (both spellings)",
+                "families": [{"name": f, "operations": o, "depth": d,
+                              "initial_paragraphs": ["empty" if w == 0 else "5 fields, unsorted, mixed case" for w in ws]}
+                             for f, o, d, ws in deep_families(tier)],
+                "histories_enumerated": sum(len(o) ** l for _f, o, d, ws in deep_families(tier) for _w in ws for l in range(1, d + 1)),
+                "fields_per_paragraph": "up to 5 + depth", "deletions_per_history": "up to the depth (4, 5 and more in a row)",
+                "not_executed": "histories with an operation that is not enabled where it is applied (nothing to delete, "
+                                "nothing deleted yet, a single paragraph to switch from) are not cases"}}
 
 
 def assumptions():
@@ -255,7 +269,12 @@ def assumptions():
             "the original keeps the projection it had; left out: copy.copy() (a shallow copy shares the key set with the "
             "original by Python's own rules)",
             "graph mode: two objects with equal complete projections have equal futures in the model; the depth-2 tree "
-            "from the representative of every abstract state covers the first two steps of any implementation-only difference"]
+            "from the representative of every abstract state covers the first two steps of any implementation-only difference",
+            "deep-narrow histories: field names are <letters><5 digits>, values v<step>; 'switch' only moves the harness's "
+            "cursor between the live paragraphs (no library call); a paragraph left behind by copy() stays live and is edited "
+            "again later, so independence of copies is checked in both directions; re-parse replaces the paragraph under "
+            "the cursor; intermediate steps are checked for their outcome (exception class) only, every proper prefix "
+            "being a history of the family with its own complete observation"]
 
 
 # ------------------------------------------------------------------------------------------------ model side
@@ -720,6 +739,7 @@ def units(tier, seed):
                 out.append({"mode": "tree", "init": i, "prefix": [], "first": f, "level": level, "observe": "end",
                             "alt": True})
     out += route_units(tier, keys, vals, len(states))
+    out += deep_units(tier)
     return out
 
 
@@ -761,6 +781,8 @@ def route_tree_starts(tier, keys, vals):
 
 
 def unit_cost(u, tier):
+    if u["mode"] == "deep":
+        return 4 * 12 ** (u["level"] - len(u["head"])) * u["level"]
     if u["mode"] == "routes":
         return {"state": 60000, "other-inits": 10000, "class": 80000}.get(u["shape"], 20000)
     n = 93 ** u["level"] if u["first"] is None else 93 ** (u["level"] - 1)
@@ -844,6 +866,8 @@ def run_routes(u, tier, seed):
 def run_unit(u, tier, seed):
     if u["mode"] == "routes":
         return run_routes(u, tier, seed)
+    if u["mode"] == "deep":
+        return run_deep(u, tier, seed)
     part = core.Part()
     keys, vals = alphabet2() if u.get("alt") else alphabet(seed)
     ops = operations(keys, vals)
@@ -902,7 +926,279 @@ def run_unit(u, tier, seed):
     return part
 
 
+# ------------------------------------------------------------------------------------------------ deep-narrow histories
+# Beyond the small scope: a SMALL alphabet of state-changing operations over an unbounded supply of field names,
+# explored exhaustively to depth 5 (quick) / 6 (thorough), on a *world* of live paragraphs: copy() adds a paragraph
+# and continues on it, "switch" goes back to the paragraph left behind (cyclically), so two or three paragraphs
+# are edited alternately.  The operations are named abstractly and resolved against the model state (the paragraph
+# under the cursor), so that "a new name that sorts first" is well defined in every state:
+#   add-first / add-last / add-mid   a NEW name that sorts before all / after all / in the middle of the present names
+#   readd                            the name deleted last from this paragraph, in the other spelling
+#   reset                            a new value for the first field, through the other spelling of its name
+#   del-head / del-mid / del-tail    delete by position
+#   sort                             sort_fields()
+#   move                             order_last(first field)
+#   copy / switch                    see above
+#   refuse                           delete a name that is not there (KeyError, nothing changes)
+#   reparse                          Deb822(d.dump()) replaces the paragraph under the cursor
+# Every history is replayed from a fresh object; after its last step the COMPLETE projection of EVERY paragraph of
+# the world is compared (every name ever used in the history, in both spellings, present or not).
+DEEP_OPS = {"quick": ["add-first", "add-last", "readd", "del-head", "del-mid", "del-tail", "sort", "move", "copy",
+                      "switch", "refuse"],
+            "thorough": ["add-first", "add-last", "readd", "del-head", "del-mid", "del-tail", "sort", "move", "copy",
+                         "switch", "refuse"]}
+DEEP_WIDE_OPS = ["add-first", "add-last", "add-mid", "readd", "reset", "del-head", "del-mid", "del-tail", "sort", "move",
+                 "copy", "switch", "refuse", "reparse"]
+DEEP_DEPTH = {"quick": 5, "thorough": 6}
+DEEP_WIDE_DEPTH = {"quick": 4, "thorough": 5}
+DEEP_ITER_BOUND = 64
+DEEP_INIT_RANKS = [[], [50000, 47000, 53000, 49000, 52000]]      # empty; five fields, not in sorted order
+
+
+def deep_letter(seed):
+    return core.rep(seed, ["F", "K", "Pq-", "X-Y"])
+
+
+def deep_name(letter, rank):
+    """one name per rank; neighbouring thousands differ in case, so sorting on the raw name is not sorting on lower()"""
+    return (letter.upper() if (rank // 1000) % 2 == 0 else letter.lower()) + "%05d" % rank
+
+
+def deep_rank(name):
+    return int(name[-5:])
+
+
+def deep_init(letter, which):
+    return ["text", [[deep_name(letter, r), "i%d" % i] for i, r in enumerate(DEEP_INIT_RANKS[which])]]
+
+
+class DeepWorld(object):
+    """the model side: a list of ListModels, a cursor, the name each paragraph lost last, all names ever used"""
+
+    def __init__(self, letter, pairs):
+        self.letter = letter
+        self.objs = [ListModel(pairs)]
+        self.lost = [None]
+        self.cur = 0
+        self.used = set(k for k, _v in pairs)
+        self.step = 0
+
+    def names(self):
+        out = []
+        for n in sorted(self.used, key=deep_rank):
+            out += [n, n.swapcase()]
+        return out
+
+    def resolve(self, opname):
+        """abstract operation -> concrete operation on the paragraph under the cursor, or None if it is not enabled"""
+        m = self.objs[self.cur]
+        present = m.keys()
+        ranks = sorted(deep_rank(k) for k in present)
+        allr = sorted(deep_rank(k) for k in self.used)
+        val = "v%d" % self.step
+        if opname == "add-first":
+            return ("set", deep_name(self.letter, (allr[0] - 1000) if allr else 50000), val)
+        if opname == "add-last":
+            return ("set", deep_name(self.letter, (allr[-1] + 1000) if allr else 50000), val)
+        if opname == "add-mid":
+            if len(ranks) < 2:
+                return None
+            lo, hi = ranks[(len(ranks) - 1) // 2], ranks[(len(ranks) - 1) // 2 + 1]
+            r = (lo + hi) // 2
+            if not lo < r < hi or r in allr:
+                return None
+            return ("set", deep_name(self.letter, r), val)
+        if opname == "readd":
+            k = self.lost[self.cur]
+            if k is None or m.contains(k):
+                return None
+            return ("set", k.swapcase(), val)
+        if opname == "reset":
+            return ("set", present[0].swapcase(), val) if present else None
+        if opname in ("del-head", "del-mid", "del-tail"):
+            if not present or opname == "del-mid" and len(present) < 3:
+                return None
+            return ("del", present[{"del-head": 0, "del-mid": len(present) // 2, "del-tail": -1}[opname]])
+        if opname == "sort":
+            return ("sort",)
+        if opname == "move":
+            return ("last", present[0].swapcase()) if len(present) > 1 else None
+        if opname == "copy":
+            return ("copy",) if len(self.objs) < 4 else None
+        if opname == "switch":
+            return ("switch",) if len(self.objs) > 1 else None
+        if opname == "refuse":
+            k = self.lost[self.cur]
+            return ("del", k.swapcase() if k is not None and not m.contains(k) else self.letter + "-absent")
+        if opname == "reparse":
+            return ("reparse",)
+        raise AssertionError(opname)
+
+    def apply(self, op):
+        """-> expected outcome of the step"""
+        self.step += 1
+        m = self.objs[self.cur]
+        if op[0] == "switch":
+            self.cur = (self.cur - 1) % len(self.objs)
+            return ("ok", None)
+        if op[0] == "copy":
+            self.objs.append(m.copy())
+            self.lost.append(self.lost[self.cur])
+            self.cur = len(self.objs) - 1
+            return ("ok", None)
+        if op[0] == "set":
+            self.used.add(op[1] if op[1] in self.used or op[1].swapcase() not in self.used else op[1].swapcase())
+        if op[0] == "del" and m.contains(op[1]):
+            self.lost[self.cur] = m.keys()[m.find(op[1])]
+        m2, expected = model_apply(m, op)
+        self.objs[self.cur] = m2
+        return expected
+
+
+def deep_execute(letter, which, history, info=None):
+    """one deep history on fresh objects -> list of (sig, expected, observed); [] also when an operation of the history
+    is not enabled in the state it is applied in (info['enabled'] is False then: such a history is not a case)"""
+    init = deep_init(letter, which)
+    w = DeepWorld(letter, init[1])
+    real = [build(init)]
+    cur = 0
+    concrete = []
+    opname, expected, changed = "initial", ("ok", None), False
+    for opname in history:
+        op = w.resolve(opname)
+        if op is None:
+            if info is not None:
+                info["enabled"] = False
+            return []
+        concrete.append(op)
+        before = [m.canon() for m in w.objs], w.cur
+        expected = w.apply(op)
+        changed = ([m.canon() for m in w.objs], w.cur) != before
+        if op[0] == "switch":
+            cur = (cur - 1) % len(real)
+            continue
+        d, observed = real_apply(real[cur], op)
+        if op[0] == "copy" and observed[0] == "ok":
+            real.append(d)
+            cur = len(real) - 1
+        else:
+            real[cur] = d
+        bad = compare(op, expected, observed, None, None, None)
+        if bad:
+            return [("deep/%s/%s" % (opname, bad[0].split("/", 2)[2]), bad[1], "%s   (operations: %r)" % (bad[2], concrete))]
+    names = w.names()
+    for i, m in enumerate(w.objs):
+        mobs = model_observe(m, names)
+        robs, rerr = deep_observe(real[i], names)
+        where = "current" if i == w.cur else "other-paragraph"
+        if rerr is not None:
+            return [("deep/%s/%s/%s" % (opname, where, rerr[0]), rerr[1], "%s   (operations: %r)" % (rerr[2], concrete))]
+        if mobs != robs:
+            for j, comp in enumerate(COMPONENTS):
+                if mobs[j] != robs[j]:
+                    return [("deep/%s/%s/%s" % (opname, where, comp), "paragraph %d of %d: %s = %r" % (i, len(real), comp, mobs[j]),
+                             "%s = %r   (operations: %r)" % (comp, robs[j], concrete))]
+    if info is not None:
+        info["enabled"] = True
+        info["outcome"] = "deep/%s:%s/%d-paragraphs" % (opname, "/".join(sorted(expected[1])) if expected[0] == "exc" else
+                                                         ("changed" if changed else "unchanged"), len(real))
+        info["nontrivial"] = expected[0] == "exc" or changed
+        info["fields"] = max(m.length() for m in w.objs)
+    return []
+
+
+def deep_observe(d, names):
+    try:
+        ks = list(itertools.islice(iter(d), DEEP_ITER_BOUND))
+        if len(ks) >= DEEP_ITER_BOUND:
+            return None, ("keys/unbounded-iteration", "fewer than %d keys" % DEEP_ITER_BOUND, ks)
+        look = []
+        for k in names:
+            try:
+                look.append(d[k])
+            except KeyError:
+                look.append(None)
+        return (ks, look, [k in d for k in names], len(d), d.dump()), None
+    except Exception as e:
+        return None, ("observe-raises-" + type(e).__name__, "observations succeed", "%s: %s" % (type(e).__name__, e))
+
+
+def deep_families(tier):
+    """(name, operation alphabet, depth, initial paragraphs)"""
+    return [("narrow", DEEP_OPS[tier], DEEP_DEPTH[tier], [1]),
+            ("narrow-from-empty", DEEP_OPS[tier], DEEP_DEPTH[tier] - 1, [0]),
+            ("wide", DEEP_WIDE_OPS, DEEP_WIDE_DEPTH[tier], [0, 1])]
+
+
+def deep_units(tier):
+    """one unit per (family, initial paragraph, level, first two operations): simplest-first.  The histories of the
+    wide family that only use operations of the narrow alphabet (to the narrow depth, from the same paragraph) are
+    cases of the narrow family and are skipped there."""
+    out = []
+    for fam, ops, depth, whichs in deep_families(tier):
+        for which in whichs:
+            for level in range(1, depth + 1):
+                if level <= 2:
+                    out.append({"mode": "deep", "family": fam, "which": which, "level": level, "head": []})
+                else:
+                    for a in ops:
+                        for b in ops:
+                            out.append({"mode": "deep", "family": fam, "which": which, "level": level, "head": [a, b]})
+    return out
+
+
+def deep_owned_elsewhere(tier, fam, which, hist):
+    if fam != "wide":
+        return False
+    for f2, ops, depth, whichs in deep_families(tier):
+        if f2 != "wide" and which in whichs and len(hist) <= depth and all(o in ops for o in hist):
+            return True
+    return False
+
+
+def run_deep(u, tier, seed):
+    part = core.Part()
+    letter = deep_letter(seed)
+    fam, which, level = u["family"], u["which"], u["level"]
+    ops = dict((f, o) for f, o, _d, _w in deep_families(tier))[fam]
+    part.max_depth = level
+    applied = 0
+    for tail in itertools.product(ops, repeat=level - len(u["head"])):
+        hist = list(u["head"]) + list(tail)
+        if deep_owned_elsewhere(tier, fam, which, hist):
+            continue
+        info = {}
+        bad = deep_execute(letter, which, hist, info)
+        case = {"family": "deep", "letter": letter, "init": which, "history": hist}
+        if bad:
+            part.transitions += 1
+            part.traces += 1
+            part.evaluations += 1
+            for sig, exp, obs in bad:
+                part.violation(sig, case, exp, obs, rank=level)
+            part.outcomes["VIOLATION:" + bad[0][0]] += 1
+            continue
+        if not info.get("enabled"):
+            part.extra["deep histories not executed to the end (an operation is not enabled in the state reached)"] += 1
+            continue
+        part.transitions += 1
+        part.traces += 1
+        part.evaluations += 1
+        applied += level
+        part.outcomes[info["outcome"]] += 1
+        part.nontrivial += bool(info["nontrivial"])
+        part.extra["deep histories ending with %d live paragraphs" % int(info["outcome"].rsplit("/", 1)[1].split("-")[0])] += 1
+        part.extra["deep histories, most fields in a paragraph = %d" % info["fields"]] += 1
+        if len(part.samples) < 1 and tail and tail[-1] == ops[-1]:
+            part.sample(case)
+    part.extra["operation applications on real objects, replayed prefixes included"] += applied
+    part.extra["deep-narrow histories (family %s)" % fam] += part.traces
+    return part
+
+
 def replay(case):
+    if case.get("family") == "deep":
+        return deep_execute(case["letter"], case["init"], list(case["history"]))
     return exec_case(case)
 
 
